@@ -205,6 +205,26 @@ class Ctx:
                 for m in re.finditer(r'^([A-Za-z_][\w\.\']*)\s*:', block[7:], re.M):
                     self.axioms.add(m.group(1))
 
+    def coqchk(self, module, timeout=2400):
+        """Thorough tier: re-check the compiled property file and everything it depends on with the independent checker."""
+        t = time.time()
+        cmd = ['timeout', str(timeout), 'coqchk', '-silent', '-o', '-Q', COQ, 'Cop', '-Q', self.build, 'CopRun', f'CopRun.{module}']
+        r = subprocess.run(cmd, cwd=self.build, stdout=subprocess.PIPE, stderr=subprocess.STDOUT, text=True)
+        out = r.stdout
+        ok = r.returncode == 0 and 'CONTEXT SUMMARY' in out
+        axioms = []
+        if ok:
+            sec = out.split('* Axioms:')[1].split('* Constants/Inductives relying on type-in-type')[0]
+            axioms = [l.strip() for l in sec.strip().split('\n') if l.strip() and l.strip() != '<none>']
+            bad = [k for k in ('type-in-type', 'unsafe (co)fixpoints', 'positivity is assumed') if
+                   out.split(k + ':')[1].strip().split('\n')[0].strip() != '<none>'] if all(k + ':' in out for k in ('type-in-type', 'unsafe (co)fixpoints', 'positivity is assumed')) else []
+            ok = not bad
+        self.obligation(f'coqchk:{module}', ok, 'proof', out[-1500:] if not ok else '')
+        self.extra['coqchk'] = {'module': module, 'seconds': round(time.time() - t, 1), 'axioms': axioms}
+        for a in axioms:
+            self.axioms.add(a.split(':')[0].strip())
+        return ok
+
     # ---------- bookkeeping ----------
     def obligation(self, name, ok, kind='proof', detail=''):
         self.obligations.append({'name': name, 'ok': bool(ok), 'kind': kind, 'detail': detail})
